@@ -132,7 +132,18 @@ func mutateRaw(r *core.Rand, s string) string {
 			return r.Str(hostileBytes, r.Intn(8))
 		}
 		p := r.Intn(len(s))
-		switch r.Intn(7) {
+		switch r.Intn(8) {
+		case 7: // a "Name: value" line once more with its name in other letter case (or only so)
+			ls := strings.SplitAfter(s, "\n")
+			k := r.Intn(len(ls))
+			if c := strings.IndexByte(ls[k], ':'); c > 0 && ls[k][0] != ' ' {
+				lo, up := strings.ToLower(ls[k][:c])+ls[k][c:], strings.ToUpper(ls[k][:c])+ls[k][c:]
+				if !strings.HasSuffix(lo, "\n") {
+					lo, up = lo+"\n", up+"\n"
+				}
+				ls[k] = r.Pick([]string{lo + up, up + lo, lo + ls[k], lo, up})
+				s = strings.Join(ls, "")
+			}
 		case 0:
 			s = s[:p] + string(r.PickByte(hostileBytes)) + s[p+1:]
 		case 1:
@@ -218,6 +229,12 @@ func streamTotal(g *core.G) {
 				flush()
 			}
 		}
+		if ep.Op == "depparse" {
+			// what a caller does to one result has no influence on later parses
+			for i := g.N(60, 3000); i > 0; i-- {
+				g.Emit("law-depindep", core.Hex(ep.Seed(r)))
+			}
+		}
 		if ep.Op == "archparse" {
 			for _, n := range archNames {
 				g.Emit("law-archrt", core.Hex(n))
@@ -254,7 +271,7 @@ func init() {
 		ID: "C18", PropsModule: "GoDebian.Props.C18", TieModule: "GoDebian.Tie.Globals",
 		Facts: []string{"globals:inventory", "fingerprint:dependency.input.Peek", "fingerprint:dependency.input.Next"},
 		Streams: []core.Stream{{Name: "total", Gen: streamTotal,
-			Domain: "per entry point (version.Parse, ParseArch, ParseArchitectures, dependency.Parse, ParagraphReader, ParseDsc, ParseChanges, ParseBinaryIndex, ParseSourceIndex, Unmarshal into a probe struct, changelog.Parse): grammar-derived seeds, 1-3 random mutations of them (substitute / insert / delete / truncate / duplicate / splice / hostile bytes incl. NUL, CR, high bytes, UTF-8 blanks), short hostile strings, and 4 KiB / 64 KiB inputs (one long token, thousands of separators, repeated seeds, random bytes); model vs implementation (a panic or a hang of the Go code shows up as such; 'err+value' = value together with an error); law-concurrent: every input parsed twice sequentially and by 16 goroutines in shuffled order, in a binary built with -race"}},
+			Domain: "per entry point (version.Parse, ParseArch, ParseArchitectures, dependency.Parse, ParagraphReader, ParseDsc, ParseChanges, ParseBinaryIndex, ParseSourceIndex, Unmarshal into a probe struct, changelog.Parse): grammar-derived seeds, 1-3 random mutations of them (substitute / insert / delete / truncate / duplicate / splice / hostile bytes incl. NUL, CR, high bytes, UTF-8 blanks / a field once more with its name in other letter case), short hostile strings, and 4 KiB / 64 KiB inputs (one long token, thousands of separators, repeated seeds, random bytes); model vs implementation (a panic or a hang of the Go code shows up as such; 'err+value' = value together with an error); law-depindep: a parse result changed in place does not influence later parses; law-concurrent: every input parsed twice sequentially and by 16 goroutines in shuffled order, in a binary built with -race"}},
 		Impl: totalImpl, TrustedBase: tb,
 		Readable: func(op string, a []string) string {
 			if op == "law-concurrent" {
